@@ -223,9 +223,11 @@ class StubsStringGenerator:
         if class_.constructor:
             constructor_type_vars = class_.constructor.type_var_types
 
+        # The generics of a class are valid for its own methods only, not for classes that are created later
+        outer_class_generics = self.class_generics
+        self.class_generics = []
         if class_.type_parameters or constructor_type_vars:
             # We collect the class generics for the methods later
-            self.class_generics = []
             for variance in class_.type_parameters:
                 variance_direction = {
                     VarianceKind.INVARIANT.name: "",
@@ -310,6 +312,9 @@ class StubsStringGenerator:
 
         # Create the last "// TOD0... " for the superclass inheritance check
         class_inheritance_todo = self._create_todo_msg(class_indentation)
+
+        # All members are created, the generics of the surrounding class (if there is one) are valid again
+        self.class_generics = outer_class_generics
 
         # Class signature line
         class_signature = (
